@@ -32,20 +32,23 @@ META = {
     "ready": True,
     "category": "model_checking",
     "technique": "TLA+ spec (ModelCacheConc.tla) of reader/writer/crash steps on the cache file and shared libraries, model-checked by TLC (safety + liveness); every transition of its graphs replayed on real transfer_model calls run as threads gated at shimmed file operations; byte-offset fault enumeration on real cache files and libraries",
-    "text": "TLC checks NoRaise, ReturnsCorrect and Recovers ([]<>Intact under weak fairness) on the intended variant (2 looping callers with different options, 3 chunks, 2-4 libraries, up to 2 crashes, absent/valid/truncated initial file) and produces the expected counterexamples for the as-built variants; the complete as-built transition graphs (all crash points sequentially in cache and codegen mode; all interleavings of two calls in cache mode) are replayed on the real code with the exact schedule enforced by gates on api.open/api.os/api.ca and the link step, and every completed call is checked for 'no exception' and 'model equals a fresh compile'; additionally every prefix length of real cache files (64 in quick, all in thorough) and sampled prefix lengths of a real shared library are presented to transfer_model.",
+    "text": "TLC checks NoRaise, ReturnsCorrect and Recovers ([]<>Intact under weak fairness) on the intended variant (2 looping callers with different options, 3 chunks, 2-4 libraries, up to 2 crashes, absent/valid/truncated initial file) and produces the expected counterexamples for the as-built variants; the complete transition graphs of the variant that describes the current code (all crash points sequentially in cache and codegen mode; all interleavings of two calls in cache mode; thorough: also the graphs of the pre-repair variant as regression schedules) are replayed on the real code with the exact schedule enforced by gates on api.open/api.os/api.ca and the link step, and every completed call is checked for 'no exception' and 'model equals a fresh compile'; additionally every prefix length of real cache files (64 in quick, all in thorough) and sampled prefix lengths of a real shared library are presented to transfer_model.",
     "note": "Trusted: TLC, the shims in vf/mc_gates.py (writer bytes go out in N gated pwrite calls at close; the linker's output is unlinked/created/completed in two steps as ld does), the projection/comparison code. Not covered: OS-level atomicity of write(2) beyond prefix visibility, other file systems, concurrent calls in codegen mode (sequential crash points only), edits of sources during a call.",
     "design_ref": "DESIGN.md section 3, C21",
 }
 
 OPT = {"o1": "O1", "o2": "O2"}
-GRAPHS = {   # cfg -> (mode, N chunks, tier)
-    "g_seq_cache": ("cache", 3, "quick"),
-    "g_conc_same": ("cache", 3, "quick"),
-    "g_conc_diff_q": ("cache", 2, "quickonly"),
-    "g_conc_diff": ("cache", 3, "thorough"),
-    "g_seq_codegen": ("codegen", 2, "directed"),      # shortest paths to every finish class (+ every crash point in thorough)
-    "gi_seq_cache": ("cache", 3, "thorough"),
+GRAPHS = {   # cfg -> (mode, N chunks, tier).  gi_* = the code as it is now (repaired); g_* = the schedules that broke the
+             # code before the repairs (kept as regression schedules, thorough only: they drift by construction)
+    "gi_seq_cache": ("cache", 3, "quick"),
+    "gi_conc_same": ("cache", 3, "quick"),
+    "gi_conc_diff_q": ("cache", 2, "quickonly"),
     "gi_conc_diff": ("cache", 3, "thorough"),
+    "gi_seq_codegen": ("codegen", 2, "directed"),     # shortest paths to every finish class (+ every crash point in thorough)
+    "g_seq_cache": ("cache", 3, "thorough"),
+    "g_conc_same": ("cache", 3, "thorough"),
+    "g_conc_diff_q": ("cache", 2, "thorough"),
+    "g_seq_codegen": ("codegen", 2, "thorough-directed"),
 }
 INIT_FILES = {"M": 1, "L1": 1, "L2": 1}
 
@@ -90,7 +93,7 @@ def calibrate(mode, n):
             lens.append(os.path.getsize(sb.cache_file))
     finally:
         sb.close()
-    size = -(-max(lens) // n)
+    size = -(-max(lens) // n) + 64        # margin: the cache file contains absolute library paths of varying length
     if min(lens) <= (n - 1) * size:
         raise MachineryError("cache files of the two option sets differ too much in size: %s" % lens)
     _calib[key] = size
@@ -207,8 +210,15 @@ def run_path(sc):
                     # align: the thread should now wait at the gate named by the spec's pc (or be done)
                     want_pc = st["pc_after"]
                     tries = 0
-                    while not ag.finished and ag.at and ag.at[0] != want_pc and ag.at[0] == "r_read" and want_pc != "r_read" and tries < 4:
-                        drift["extra-read"] = drift.get("extra-read", 0) + 1
+                    # gates the spec has no step for are passed at once: a further read of the same unpickling, the
+                    # second half of a link step when libraries appear atomically, the writer's look at the old
+                    # cache file (which libraries to clean up)
+                    while (not ag.finished and ag.at and ag.at[0] != want_pc and tries < 12
+                           and ag.at[0] in ("r_read", "w_link_b", "r_open")
+                           and (ag.at[0] != "r_open" or any(g[0] == "w_open" for g in ag.trace))):
+                        kind_ = "extra-read" if ag.at[0] == "r_read" and not any(g[0] == "w_open" for g in ag.trace) else "aux-gate"
+                        if kind_ == "extra-read":
+                            drift["extra-read"] = drift.get("extra-read", 0) + 1
                         ag = ctl.advance(p)
                         tries += 1
                     if not ag.finished and ag.at and want_pc != "idle" and ag.at[0] != want_pc:
@@ -240,7 +250,8 @@ def run_path(sc):
         os.chdir(old_cwd)
         gc.collect()
         sb.close()
-    return {"records": recs, "drift": drift, "stats": stats}
+    return {"records": recs, "drift": drift, "stats": stats,
+            "gates": {p: [list(g) for g in ag.trace][-40:] for p, ag in ctl.agents.items()} if drift else {}}
 
 
 def run_path_safe(sc):
@@ -518,6 +529,8 @@ def run(ctx):
         expect["atomiconly"] = "NoRaise"
     graphs = [gname for gname, (_m, _n, tier) in GRAPHS.items()
               if (thorough and tier != "quickonly") or (not thorough and tier in ("quick", "quickonly", "directed"))]
+    if thorough:
+        graphs.append("gi_conc_diff_q") if "gi_conc_diff_q" not in graphs else None
     jobs = checks + [(c, 1) for c in expect] + [(gname, 1) for gname in graphs]
     with ThreadPoolExecutor(4) as ex:
         results = {c: (r, flag) for c, r, flag in ex.map(_tlc_job, jobs)}
@@ -548,7 +561,7 @@ def run(ctx):
             inits = [k for k, s in g.states.items() if _is_idle_state(s) and s["crashes"] == 0 and _looks_initial(s, n)]
             if not inits:
                 raise MachineryError("no initial state recognised in %s" % gname)
-            tour = tier != "directed"        # codegen: shortest paths to every finish class (thorough: and every crash point)
+            tour = "directed" not in tier    # codegen: shortest paths to every finish class (thorough: and every crash point)
             plist = _paths_for(g, inits, thorough, ctx.seed, tour, (40 if thorough else 10) if tour else 0,
                                crash_classes=tour or thorough)
             size = calibrate(mode, n)
